@@ -1,14 +1,14 @@
 """C10 monitor: SCALE encoding, byte views and serde form vs the integer's own
 little-endian bytes.
 
-  cd L a => T:encode V:encoded_size V:max_encoded_len T:bits.encode K:decode(le bytes)
+  cd L a => T:encode T:using_encoded T:encode_to T:(x,7u8).encode V:encoded_size V:max_encoded_len T:bits.encode K:decode(le bytes)
             B:all-proper-prefixes-fail K:decode(le++junk):remaining==3
             T:to_le T:to_be T:to_ne V:from_le V:from_be V:from_ne V:from_bits
             T:json K:from_json T:wrapping_json K:wrapping_from_json
 """
 from common import Stats, lay, opclass, panic_text, unhex
 
-NAMES = ("encode", "encoded_size", "max_encoded_len", "bits_encode", "decode", "short_input_fails", "decode_with_trailing",
+NAMES = ("encode", "using_encoded", "encode_to", "tuple_embedding", "encoded_size", "max_encoded_len", "bits_encode", "decode", "short_input_fails", "decode_with_trailing",
          "to_le_bytes", "to_be_bytes", "to_ne_bytes", "from_le_bytes", "from_be_bytes", "from_ne_bytes", "from_bits",
          "serde_json", "serde_from_json", "wrapping_serde_json", "wrapping_serde_from_json")
 
@@ -31,7 +31,7 @@ class Mon(object):
         be = a.to_bytes(nb, "big").hex()
         js = ('{"bits":%d}' % L.val(a)).encode().hex()
         ah = "%x" % a
-        exp = ["T:" + le, "V:%x" % nb, "V:%x" % nb, "T:" + le, "K:" + ah, "B:1", "K:%s:1" % ah,
+        exp = ["T:" + le, "T:" + le, "T:" + le, "T:" + le + "07", "V:%x" % nb, "V:%x" % nb, "T:" + le, "K:" + ah, "B:1", "K:%s:1" % ah,
                "T:" + le, "T:" + be, "T:" + le, "V:" + ah, "V:" + ah, "V:" + ah, "V:" + ah,
                "T:" + js, "K:" + ah, "T:" + js, "K:" + ah]
         if len(outs) != len(exp):
